@@ -134,9 +134,15 @@ C02Viol(o, act, o2) ==
            /\ LET i == CHOOSE k \in 1..Len(b) : b[k] = add[1]
               IN  SumWork(SubSeq(b, i, Len(b))) <= SumWork(rem)
         THEN {"ReorgNotHeavier"} ELSE {})
-  \cup (IF rem # <<>> /\ add = <<>> /\ ~(act.op = "Headers" /\ FailsCheckpoint(b))
+  \* C02 quantifies over inputs and histories, not over I/O faults: a step in
+  \* which the driver made a store write fail (act.k = 1, thorough tier) may
+  \* leave a reorganisation half done (old branch removed, new branch written
+  \* only in part); what must hold there is C01 (the stored chain is valid) and
+  \* the clauses above (nothing foreign, nothing below a checkpoint, nothing
+  \* lighter OFFERED), not "never less work".
+  \cup (IF rem # <<>> /\ add = <<>> /\ ~(act.op = "Headers" /\ (FailsCheckpoint(b) \/ act.k = 1))
         THEN {"IllegalTruncation"} ELSE {})
-  \cup (IF SumWork(C2) < SumWork(C) /\ ~(act.op = "Headers" /\ FailsCheckpoint(b))
+  \cup (IF SumWork(C2) < SumWork(C) /\ ~(act.op = "Headers" /\ (FailsCheckpoint(b) \/ act.k = 1))
         THEN {"WorkDecreased"} ELSE {})
   \cup (IF ext /\ listened /\ C2 # C \o nb THEN {"ExtensionAdoptedInFull"} ELSE {})
   \cup (IF hv /\ ~ext /\ listened /\ C2 # hvExpected THEN {"HeavierBranchAdoptedInFull"} ELSE {})
